@@ -19,8 +19,8 @@ PROPERTY = {
     ],
     "timeout": 900,
     "kani": [
-        Harness("c15_twin_add_tablet", "C15.twin.add_tablet", "BOUNDED", "same post-condition as the Verus contract of add_tablet, on the compiled code", bound="lists of <= 3 tablets, full i64 ranges", twin=True, functions=["scylla/src/routing/locator/tablets.rs:TableTablets::add_tablet"]),
-        Harness("c15_twin_tablet_for_token", "C15.twin.tablet_for_token", "BOUNDED", "same post-condition as the Verus contract of tablet_for_token, on the compiled code", bound="lists of <= 3 tablets, full i64 ranges", twin=True, functions=["scylla/src/routing/locator/tablets.rs:TableTablets::tablet_for_token"]),
+        Harness("c15_twin_add_tablet", "C15.twin.add_tablet", "BOUNDED", "same post-condition as the Verus contract of add_tablet, on the compiled code", bound="lists of <= 2 tablets, full i64 ranges", twin=True, functions=["scylla/src/routing/locator/tablets.rs:TableTablets::add_tablet"]),
+        Harness("c15_twin_tablet_for_token", "C15.twin.tablet_for_token", "BOUNDED", "same post-condition as the Verus contract of tablet_for_token, on the compiled code", bound="lists of <= 2 tablets, full i64 ranges", twin=True, functions=["scylla/src/routing/locator/tablets.rs:TableTablets::tablet_for_token"]),
     ],
     "trusted_base": [
         "Verus/Z3 soundness",
